@@ -11,7 +11,7 @@ CONSTANTS
   EQW = 64
   MERW = 8
   LESTRIDE = 1
-  SWEEPLAT = 120
-  SWEEPLON = 100
-  NRAND = 40000
+  SWEEPLAT = 200
+  SWEEPLON = 150
+  NRAND = 100000
   NLONS = 4
